@@ -67,9 +67,12 @@ def _units(field, radix, ul, cur):
         if len(t) not in ul:
             return False
         try:
-            got.append((int(t, radix), ul[len(t)]))
+            v = int(t, radix)
         except ValueError:
             return False
+        if v >= 1 << (8 * ul[len(t)]):
+            return False          # not a dump of that many bytes (text that merely has the right width)
+        got.append((v, ul[len(t)]))
     cur["units"] += got
     return True
 
